@@ -223,7 +223,7 @@ PROPS = {
                       "fixed shapes [observables, new_iter_observables] and [constraints, observables, new_iter_observables] + `_objective`). "
                       "Not covered: sparse linear function at the _preprocess_function call site, sparse Jacobians at evaluation time, tolerance lookup.",
         "design_ref": "DESIGN.md §4 C01",
-        "modules": ["contracts.c01_c03_evaluation", "contracts.c01_preprocessing"],
+        "modules": ["contracts.c01_c03_evaluation", "contracts.c01_preprocessing", "contracts.c02_more"],
         "assumptions": ["DesignSpace.get_lower_bounds()/get_upper_bounds() return the bound vectors, convert_dict_to_array(normalize) the per-component normalisation policies",
                         "ProblemFunction.__init__ stores its arguments (record model); it passes f_type=function.f_type",
                         "csr_matvec: the CSR matrix-vector product is a function of the contents of indptr/indices/data and of the vector (row sums not interpreted)",
@@ -330,7 +330,12 @@ PROPS = {
                       "converted cached outputs, and nothing of the cache changes - in particular no dictionary the cache handed out is written to: the results of the "
                       "read contracts (_read_data, __getitem__, last_entry, _read_input_output_data) are registered as POSSIBLE ALIASES of the stored entry "
                       "(MemoryFullCache(is_memory_shared=False) returns the stored dictionary itself), any write into one sets the ghost `fc_entry_written`, which no "
-                      "contract has in its frame.",
+                      "contract has in its frame; (8) Discipline.linearize / execute / _store_cache / _set_data_from_cache / __compute_jacobian / _get_differentiated_io with the default "
+                      "SimpleCache (contracts/c05_linearize.py; BaseDiscipline.execute, __can_load_cache, _store_cache re-verified for a Discipline receiver): a lookup returning "
+                      "outputs and a Jacobian covering the requested outputs x inputs returns that Jacobian without computing or running anything; otherwise the Jacobian is "
+                      "computed exactly once (at most once when the run provides one), restricted to the differentiated outputs x inputs (all grammar names with "
+                      "compute_all_jacobians), and cached under the prepared inputs as passed; execute resets _has_jacobian so that a Jacobian is flagged valid only if loaded "
+                      "with the entry or provided by that very run.",
         "level_note": "Trusted: pyvc VC generator and its dict/list/set models, z3/cvc5, arrays as opaque contents in a symbolic heap (allocation only, no "
                       "in-place modification inside the verified functions), compare_dict_of_arrays / hash_data / flatten-nest of Jacobians assumed, "
                       "ghost code in __ensure_input_data_exists (ghost variables only), DictProxy stores pickled copies, IO/grammar/_run environment of "
@@ -353,6 +358,13 @@ PROPS = {
             "HDF5FileSingleton.__open / keep_open / __close (the file-handle protocol) are not verified: `with self.__open()` gives access to the persistent content; inside keep_open a "
             "file operation leaves the handle open (assumed clause `file-handle` of HDF5Cache._read_data), which is what exposes the AssertionError of get_all_entries on an empty cache",
             "BaseFullCache._all_groups (sorted(chain(*tolist()))) is assumed to be [1..max_index] under the representation invariant",
+            "Discipline.jac is a nested dict of array addresses; SimpleCache stores it as is and its contracts see it as the flat dict of blocks keyed by an injective "
+            "jac_pair_key(output, input) (plugin conversion pyvc/plug_c05lin.py; 'no empty row' is a proved obligation where a Jacobian is handed to the cache, assumed on what the cache returns)",
+            "_run may provide a Jacobian (run_sets_jacobian(run number)), _compute_jacobian / DisciplineJacApprox.compute_approx_jac bind allocated Jacobian data without empty row and do not "
+            "modify existing arrays (ghosts disc_linearizations, disc_lin_jac); ExecutionStatus.handle calls its callable exactly once",
+            "_check_jacobian_shape assumed: KeyError only if a requested output/input is missing, ValueError unconstrained (shapes not modelled), nothing changed on a raise, otherwise blocks "
+            "replaced by their real parts",
+            "closeness with tolerance is reflexive; prepare_input_data is idempotent; _jac_approx is not None in an approximation mode",
             "data converters: convert_array_to_value(name, array) is a function of the name and of the content of the array and does not modify the array (a Python scalar/str value is an "
             "opaque content in the array heap); a dictionary returned by a cache read may be the stored one - `d.copy()` is not",
             "a multiprocessing manager DictProxy stores a pickled deep copy of an assigned value (MemoryFullCache(is_memory_shared=True))",
@@ -362,7 +374,9 @@ PROPS = {
         ],
         "not_covered": ["HDF5Cache.__init__ (construction of the singleton file handler, file format version check), _copy_empty_cache, update_file_format, __getstate__/__setstate__ (C20); "
                         "that the file a NEW session finds satisfies the invariants the previous session left it with is the precondition of _read_hashes (nothing else writes the node)",
-                        "multi-process locking; two HDF5Cache objects on the same node", "Discipline.linearize Jacobian-cache protocol",
+                        "multi-process locking; two HDF5Cache objects on the same node",
+                        "linearize with a full cache or without cache; _check_jacobian_shape / _init_jacobian / array shapes; perturbed executions of the Jacobian approximation; "
+                        "_linearize_on_last_state subclasses; consequences of SimpleCache keeping self.jac by reference (known finding)",
                         "BaseDiscipline.execute / _store_cache with MemoryFullCache/HDF5Cache (convert_value_to_array on the way in; __can_load_cache with a full cache IS covered, for exact matching)", "in-place modification of inputs by _run",
                         "BaseCache.input_names/output_names/names_to_sizes (cached names), update, __add__, __setitem__, to_dataset (pandas), to_ggobi; MemoryFullCache.copy",
                         "arrays returned by a lookup are shared with the cache (SimpleCache, MemoryFullCache not shared): modifying them in place changes the cached entry",
@@ -410,13 +424,16 @@ PROPS = {
                       "mutual dependency, listed in the caller's order; a group strictly after every group producing one of its inputs), that the strong/weak/all coupling sets and the "
                       "strongly/weakly coupled disciplines (both return shapes; every discipline strongly xor weakly coupled; strong couplings = union over the groups needing an MDA of inputs(group) & outputs(group), per group) "
                       "computed by CouplingStructure are the set identities implied by the name sets, and that MDOChain._execute is the exact left fold of "
-                      "update(d.execute(data)) in list order. Relative to assumed contracts of three networkx functions and one cited lemma; see level_note.",
+                      "update(d.execute(data)) in list order, and that MDAChain._create_mdo_chain (with __create_process_from_disciplines, __compute_parallel_disciplines, __requires_mda) builds "
+                      "one process per stage in sequence order, one per group inside a stage, an inner MDA over exactly the disciplines of the group iff the group has several "
+                      "disciplines or a self-coupled one (not itself an MDA), else the discipline itself. Relative to assumed contracts of three networkx functions and one cited lemma; see level_note.",
         "level_note": "Trusted: pyvc VC generator and its container models, z3/cvc5, the graph plugin pyvc/plug_graph.py (model of networkx.DiGraph as ordered node set + "
                       "edge relation + ghost removal history). Assumed: contracts of networkx.strongly_connected_components / condensation (incl. acyclicity as a rank "
                       "function), lemma 'a non-empty finite DAG has a sink'. Not proved: order-independence of the chain result (see not_covered).",
         "design_ref": "DESIGN.md §4 C08",
-        "modules": ["contracts.c08_dependency", "contracts.c08_coupling"],
+        "modules": ["contracts.c08_dependency", "contracts.c08_coupling", "contracts.c08_mdachain"],
         "assumptions": [
+            "MDAChain: the inner-MDA class, MDOChain(...) and MDOParallelChain(...) are abstract constructors (uninterpreted functions of (class, disciplines, settings, sub coupling structure) / (processes, name) / (processes, settings) with observers); isinstance(d, BaseMDA) is an uninterpreted predicate of the discipline; the representation invariant coupling_structure.sequence = valid schedule is assumed (proved postcondition of get_execution_sequence); task_ok is a predicate defined by task_ok_definition (pyvc/plug_mdachain.py, contracts/c08_mdachain.py)",
             "a discipline is an opaque value; its input/output grammars are the name sets in_names(d)/out_names(d), not modified by the functions under contract",
             "networkx.strongly_connected_components(G) returns the partition of the nodes into classes of mutual reachability (reach = reflexive-transitive closure of the edge relation; only its closure axioms are used)",
             "networkx.condensation(G, scc): nodes 0..m-1 in the order of scc, node attribute members, mapping, an edge a->b iff a!=b and some member edge crosses, result acyclic (a rank function exists); its preconditions (scc = duplicate-free partition of the nodes) are proved at the call site",
@@ -430,7 +447,8 @@ PROPS = {
         ],
         "not_covered": [
             "lazy caching properties of CouplingStructure (strong_couplings, all_couplings, ...): get_output/input_couplings are verified reading the cached lists as they are",
-            "order-independence of MDOChain results for acyclic systems (lemma over the fold) and MDAChain._create_mdo_chain, MDOChain._initialize_grammars",
+            "order-independence of MDOChain results for acyclic systems (lemma over the fold), MDOChain._initialize_grammars, MDAChain.__init__/_initialize_grammars/execute",
+            "MDAChain.__create_inner_mda_settings (pydantic: assumed), the inner MDA / MDOChain / MDOParallelChain constructors (abstract, uninterpreted); StopIteration of _create_mdo_chain when fewer sub coupling structures than inner MDAs are given is allowed but not characterised",
             "numerical equality of an MDA chain with a monolithic solve when cycles exist (C06)",
             "rendering functions of DependencyGraph, __get_leaves on a non-condensed graph",
         ],
@@ -456,7 +474,9 @@ PROPS = {
                       "J'[o][v] = (J[o][v] unless the discipline produces v) (+) sum over y in sorted(keys J[o] & keys D) with v in D[y] of J_entry[o][y] * D[y][v] (recursive ghost fold c09n_g over the sorted enumeration, "
                       "absent = structural zero; the entries of the produced variables are dropped unless re-created by the composition: overwritten and self-coupled variables included); a chain output J does not hold and "
                       "the discipline produces gets a fresh copy of D[o]; every other row, every array of the disciplines (watermark frame) and every popped block are untouched - the in-place += only hits blocks owned by "
-                      "the row - and the blocks of J stay allocated, above the watermark and pairwise distinct. The composition of the steps by MDOChain._compute_jacobian (T_k recursion) is not addressed; see not_covered.",
+                      "the row - and the blocks of J stay allocated, above the watermark and pairwise distinct. The composition of the steps by MDOChain._compute_jacobian (T_k recursion) is not addressed; see not_covered. "
+                      "MDAChain._compute_jacobian: with chain_linearize the Jacobian is the one of the (abstract) inner chain at the CURRENT input data, the inner chain being re-executed at that "
+                      "point (its state may be another point when the outputs came from a cache), and its differentiated names only grow; otherwise the (assumed) assembly result.",
         "level_note": "Chains: disciplines are opaque, their Jacobians a ghost dictionary of the chain (pyvc/plug_c09.py); ASSUMED: the summary of MDOParallelChain._compute_jacobian "
                       "(prophecy ghosts for what the parallel linearisation leaves in the disciplines and in self.jac), the constructor model of CouplingStructure (its graph is the "
                       "dependency graph specified by the contract verified on __create_graph), shapes of linearised blocks = variable sizes (what Discipline._check_jacobian_shape enforces), "
@@ -465,8 +485,9 @@ PROPS = {
                       "networkx.edge_bfs/reverse_view; reach = reflexive-transitive closure (closure axioms). Not proved: requested endpoints of paths of length >= 1 "
                       "(needs the unfolding of reach), minimality of the selection, the Jacobian accumulation of MDOChain.",
         "design_ref": "DESIGN.md §4 C09",
-        "modules": ["contracts.c09_chain_rule", "contracts.c09_chains", "contracts.c09_numeric"],
+        "modules": ["contracts.c09_chain_rule", "contracts.c09_chains", "contracts.c09_numeric", "contracts.c09_mdachain"],
         "assumptions": [
+            "MDAChain._compute_jacobian (contracts/c09_mdachain.py): the inner MDO chain is an opaque discipline; linearize(data, execute) = [execute => its state point := content of data]; jac := Jac(discipline, state point, differentiated inputs, differentiated outputs) (ghost maps c09m_state / c09m_jac); IO.get_input_data() is a deterministic function of the content of io.data; BaseMDA._compute_jacobian (coupled adjoint through the Jacobian assembly, C07) is an assumed summary: self.jac := total derivatives at the current data for the requested names",
             "networkx.edge_bfs(G, source) enumerates exactly the edges whose tail is reachable from the source, each once; reverse_view(G) = same nodes, reversed edges with the same data",
             "reach = reflexive-transitive closure of the edge relation (closure axioms only)",
             "lset(list) is *defined* as the set of the elements of a list of names; the facts on lset added by the plugin for list.extend / list(set) / set(list) are consequences of that definition",
@@ -513,14 +534,14 @@ PROPS = {
                       "(_root_node._active_strategies[0]._required/_properties: the attached live containers). "
                       "Conversion (JSON <-> simple agreement on what both express): BaseGrammar.to_simple_grammar for JSON and pydantic receivers (SimpleGrammar returns itself) yields a NEW "
                       "well-formed SimpleGrammar - its Defaults / RequiredNames are bound to IT and checked against ITS elements - with the same names, required names, default VALUES (own "
-                      "dictionary) and the types of JSONGrammar._get_names_to_types (JSON_TO_PYTHON_TYPES of the property's single `type` keyword, else None; exceptions characterised exactly) "
+                      "dictionary) and the types of JSONGrammar._get_names_to_types (JSON_TO_PYTHON_TYPES of the property's single `type` keyword, else None; total) "
                       "resp. PydanticGrammar._get_names_to_types; lemma on the REAL conversion tables (JSON->Python->JSON identity, Python->JSON->Python identity up to list/tuple->ndarray, "
                       "float->complex); the defaults setter also for a Defaults argument; JSONGrammar._copy (caches valid for the copy), update_from_file / to_file (delegation, file system "
                       "abstract). PydanticGrammar (contracts/c15_pydantic_grammar.py, pydantic abstract: create_model / model_rebuild / model_validate / model_json_schema assumed over "
                       "(model_fields, ghost built fields)): every mutator (_delitem, _rename_element, _restrict_to, _clear, _update, _update_from_names/_types, __update_from_annotations) "
                       "changes the fields exactly as specified and re-establishes MODEL VALIDITY (flag down => the model is built from the current fields); __rebuild_model / _validate honour "
-                      "it (verdict of a model built from the CURRENT fields). Known findings (natively confirmed): conversion raises KeyError/TypeError for untyped / multi-typed JSON "
-                      "properties, PydanticGrammar.schema ignores the rebuild flag, PydanticGrammar.copy shares the model class. The reference-validator agreement is NOT covered; see level_note.",
+                      "it (verdict of a model built from the CURRENT fields). PydanticGrammar.schema rebuilds first; PydanticGrammar._copy gives the copy its OWN model with a copied fields dictionary; the JSON conversion is total (no exception). The "
+                      "four defects found here (d39649c, e892c2a, 4723ed2) are repaired and the clauses are proved without regions. The reference-validator agreement is NOT covered; see level_note.",
         "level_note": "Trusted: pyvc and its dict/set models; types and data values are opaque values and isinstance(value, type) is an uninterpreted predicate; the "
                       "collections.abc mixin methods the classes inherit (Mapping.__contains__/keys/items/get, MutableMapping.pop/update, MutableSet.__ior__/__iand__/remove/clear, "
                       "copy.copy of a plain instance) are modelled in pyvc/plug_grammars.py from their CPython definitions over the verified primitives (add, discard, __setitem__, "
@@ -612,16 +633,23 @@ PROPS = {
                       "CSR coefficients; contracts shared with C01, contracts/c01_preprocessing.py): the result is a new linear function with coefficients "
                       "A diag(s) and offset A shift + b, and the operand's coefficients, offset and other attributes are untouched (no aliasing of the "
                       "sparse arrays). Two defects found by these contracts were repaired (8b9981c product/quotient Jacobian of vector-valued functions; "
-                      "1e06522 in-place scaling of the caller's arrays by the max/KS/IKS aggregations), see known_findings.json `fixed`.",
+                      "1e06522 in-place scaling of the caller's arrays by the max/KS/IKS aggregations), see known_findings.json `fixed`. "
+                      "ConvexLinearApprox (contracts/c10_approximations.py): __init__ evaluates Df once, at the reference point, and splits the columns of "
+                      "the approximated inputs by sign into non-negative direct / reciprocal coefficients; _func_to_wrap = f(merged) + sum_k D[:,k] step_k + "
+                      "sum_k R[:,k] inv_k with f evaluated at the merged point (reference values on the approximated inputs); _jac_to_wrap = Df at that same "
+                      "merged point on the exact-input columns and D[:,k] - R[:,k] inv_k^2 on the approximated ones (entry-wise derivative of the evaluated "
+                      "expression). compute_linear_approximation: coefficients Df(x0), offset f(x0) - Df(x0) x0 (TaylorLemmas: = f(x0) + Df(x0)(x - x0)); "
+                      "MDOLinearFunction.__neg__ / offset: (-A, -b) / (A, b + c) in a new function. Known finding: ConvexLinearApprox._jac_to_wrap writes "
+                      "into the array returned by the operand's Jacobian (see known_findings.json).",
         "level_note": "Trusted: pyvc, the numpy model (npmodel.py + plug_np_c10.py: ufunc functions, atleast_2d, tile, axis sums, max/argmax, heaviside, matrix-vector "
                       "product, in-place `a op= b` on array names), reals for floats (the shift by the maximum in KS/IKS only matters in floating point), exp/log "
                       "uninterpreted (positivity of exp only). Operand functions are deterministic and are called at the given point only. Not covered: the "
                       "MDOFunction objects built by __add__/__mul__/__neg__/offset/restrict (constructor wiring, names, expr), mixed number-/vector-valued operands, "
-                      "FunctionRestriction, LinearCompositeFunction, Concatenate, Taylor/convex-linear approximations, the bound side of "
+                      "FunctionRestriction, LinearCompositeFunction, Concatenate, quadratic approximation, the bound side of "
                       "KS/IKS, and the formula of three KS/IKS Jacobians for a subset of components (validated at run time only).",
         "design_ref": "DESIGN.md §4 C10",
         "runtime": "contracts.rt_c10",
-        "modules": ["contracts.c10_function_algebra", "contracts.c01_preprocessing"],
+        "modules": ["contracts.c10_function_algebra", "contracts.c10_approximations", "contracts.c01_preprocessing"],
         "assumptions": [
             "MDOFunction conventions (preconditions): f(x) is a vector of size m >= 1 with Jacobian of shape (m, len(x)), or a number with a gradient of shape (len(x),); both "
             "operands of a binary operation have the same output dimension (the result is built with dim = first_operand.dim); a vector operand has size m",
@@ -634,8 +662,11 @@ PROPS = {
             "lemma instances offered to the solver: congruence and positivity of prefix sums, proved by induction in PrefixSumLemmas",
         ],
         "not_covered": ["_OperationFunctionMaker.__init__ and MDOFunction.__add__/__sub__/__mul__/__truediv__/__neg__/offset (construction of the result object, names/expr/special_repr)",
-                        "MDOLinearFunction.__init__/__neg__/offset/restrict (construction; expression strings); sparse coefficient matrices outside normalize",
-                        "mdo_quadratic_function.py, function_restriction.py, linear_composite_function.py, concatenate.py, taylor_polynomials.py, convex_linear_approx.py",
+                        "MDOLinearFunction.restrict, __add__/__sub__ (inherited algebra on the result object); names / expression strings of the functions built by __neg__/offset/"
+                        "compute_linear_approximation (assumed string glue); sparse coefficient matrices outside normalize; number-valued f in compute_linear_approximation",
+                        "mdo_quadratic_function.py, compute_quadratic_approximation, function_restriction.py, linear_composite_function.py, concatenate.py, NormFunction/NormDBFunction, "
+                        "SetPtFromDatabase, MDOFunction.offset/__neg__/concatenate/restrict/linear_approximation wrappers; ConvexLinearApprox with approx_indexes=None "
+                        "(all inputs: ones_like(dtype=bool) not modelled) and the super().__init__ naming",
                         "mixed operands (vector-valued with number-valued function), vector `scale` in the aggregations, aggregation_func.py wrappers and ConstraintAggregation discipline",
                         "bound side of KS/IKS (KS_lower <= max <= KS_upper): not proved (lemmas `dominates` on prefix sums are available, exp/log monotonicity axioms not introduced)",
                         "entry formulas of compute_total_ks_agg_jac / compute_total_iks_agg_jac / compute_partial_iks_agg_jac for a subset of components (proofs not stable; "
@@ -676,7 +707,7 @@ PROPS["C11"] = {
                   "tools/validate_h5py_model.py), sorted() as a deterministic duplicate-free listing, float64 = reals, ASCII output names. "
                   "The property is claimed at the level of the writer primitives only; DesignSpace / OptimizationProblem / HDF5Cache files are not under contract.",
     "design_ref": "DESIGN.md §4 C11",
-    "modules": ["contracts.c11_hdf_database", "contracts.c11_hdf5_cache_file", "contracts.c11_design_space_files"],
+    "modules": ["contracts.c11_hdf_database", "contracts.c11_hdf5_cache_file", "contracts.c11_design_space_files", "contracts.c11_design_space_hdf"],
     "runtime": "contracts.rt_c11",
     "assumptions": [
         "abstract HDF node (pyvc/plug_hdf.py): A1 File modes w/a/r and persistence of what was written; A2 require_group; A3 `in`/len of a group; A4 create_dataset "
@@ -828,9 +859,11 @@ PROPS["C14"] = {
         "third-party samplers (SciPy, OpenTURNS, pyDOE, full factorial...): _generate_unit_samples returns one column per component, entries in [0,1], a deterministic "
         "function c14_unit_samples(algorithm name, dimension, validated settings, default seed of the Seeder); only the Seeder may change",
         "driver level: DesignSpace.untransform_vect(x, no_check=True) = c14_untransform(integer-normalisation flag, variables, policies, x), a new array of the shape of x; it only "
-        "refreshes the cached normalisation data (bridge to the numerical level: UnnormalizeVectBatch is proved under wfnum = what __update_normalization_vars establishes, C02)",
-        "numerical level preconditions (DesignSpace invariants): cached normalisation data valid (C02 wfnum), one column per component, an integer common dtype only when "
-        "every variable is an integer variable",
+        "refreshes the cached normalisation data (bridge to the numerical level: UnnormalizeVectBatch is proved under wfnum, which C02 proves to be what "
+        "__update_normalization_vars establishes from the representation invariant - contracts/c02_more.py UpdateNormalizationVars@lnk: validity of the cached data AND their "
+        "link to the per-variable bounds / policies / types; the `monotone-lemma` precondition is C02 MonotoneLemma)",
+        "numerical level preconditions: cached normalisation data valid (C02 wfnum, established by UpdateNormalizationVars@lnk), one column per component; NO assumption on the "
+        "common dtype of the current values (since the repair 4832538 the result is cast to integers only in an all-integer design space, by construction)",
         "_validate_settings raises a ValueError or returns a deterministic function of (algorithm, settings model, settings); _filter_settings a deterministic function of "
         "(settings, excluded model) without keys `self` / `design_space`; the **settings of a function never contain the names of its own parameters (CPython)",
         "DiagonalDOE: n_samples >= 2 (validated by DiagonalDOE_Settings, ge=2), reverse is a list of strings; linspace(a, b, n)[i] = a + (b - a) t(i, n) with "
@@ -857,8 +890,9 @@ PROPS["C14"] = {
                     "(LHS, Sobol, Monte Carlo...: thin calls into OpenTURNS)",
                     "ParameterSpace (random variables: untransform through the inverse CDFs)", "_run / parallel evaluation of the samples (C13) and storage order in the database",
                     "CustomDOE.read_file, samples given as mappings", "DOEScenario / factory / settings models",
-                    "the link between the design space's variables / policies and its cached normalisation arrays (__update_normalization_vars, C02 gap), hence no "
-                    "end-to-end 'compute_doe output lies inside the bounds' theorem: it is the composition of the driver-level proof, the assumed bridge and the numerical-level proof",
+                    "a single end-to-end 'compute_doe output lies inside the bounds' theorem: it is the composition of the driver-level proof (untransform_vect uninterpreted there), "
+                    "the link proved under C02 (UpdateNormalizationVars@lnk: the cached arrays are the concatenated per-variable bounds / policies / types and satisfy wfnum) "
+                    "and the numerical-level proof - the composition itself (batch unnormalize_vect called from a not-yet-computed state) is not a checked obligation",
                     "that untransform_vect(transform_vect(x)) = x for CustomDOE (holds per component for lb < ub: C02 BijectionLemmas; equal bounds map to lb)",
                     "error paths: the state of the design space when compute_doe / _pre_run raise (see the observation in level_note)"],
 }
